@@ -298,7 +298,10 @@ class Run:
             computed_ext = ext if ext is not None else bool(facts)
             self.ref = RefZ(self.sig, self.conds_ast, extended=computed_ext, facts=facts_ast)
             try:
-                self.obj = PreOCF.init_system_z(self.bb, metadata=meta, facts=list(facts) if facts else None, extended=ext)
+                given = list(facts) if facts else None
+                if given and o.get("facts_as_nodes"):
+                    given = [parse_formula(f) for f in given]  # facts may be formula objects as well as strings
+                self.obj = PreOCF.init_system_z(self.bb, metadata=meta, facts=given, extended=ext)
             except ValueError as e:
                 if self.cur == 0:
                     self.refused = True
@@ -1213,6 +1216,7 @@ def generate(prop, verif_seed, idx, tier="quick", cls=None):
             text, src = W.base_text(sig, conds), "gen"
         if variant == "facts":
             obj["facts"] = [_gen_fact(g, sig) for _ in range(g.choice([1, 1, 2]))]
+            obj["facts_as_nodes"] = g.random() < 0.4
         queries = []
         for _ in range(g.randint(3, 6)):
             t = W.cond_text(W.gen_query(g, sig, conds))
